@@ -179,13 +179,19 @@ def r2(F, rep):
     run = F.need("colvarscript::run")[0]
     res = X.const_locals(run)
     # dispatch: call through the function pointer cmd_fn
-    disp = [c for c in run.walk() if c["k"] == "CallExpr" and not c.get("callee") and
-            X.mentions(X.kids(c)[0], lambda x: x["k"] == "DeclRefExpr" and x.get("n") == "cmd_fn")]
+    # an indirect call through a local function pointer
+    def fp_of(c):
+        e = X.strip(X.kids(c)[0]) if X.kids(c) else None
+        while e is not None and e["k"] == "UnaryOperator" and e.get("op") == "*":
+            e = X.strip(X.kids(e)[0])
+        return e if e is not None and e["k"] == "DeclRefExpr" and e.get("st") == "local" else None
+    disp = [c for c in run.walk() if c["k"] == "CallExpr" and not c.get("callee") and fp_of(c) is not None]
     if not disp:
         raise AnalysisBroken("colvarscript::run: dispatch through cmd_fn not found")
     d = disp[0]
     fs2, gs = C.guard_facts(run, d, res)
-    ok = any(t[0] in ("nz", "true") and t[1].startswith("cmd_fn") for t in fs2)
+    fpk = X.key(fp_of(d), run)
+    ok = any(t[0] in ("nz", "true") and t[1] == fpk for t in fs2)
     rep.add("C20-R2", "run|cmd_fn-nonnull", run.loc(d), "the command function pointer is tested before the call", ok,
             detail="an unknown command name yields a null function pointer", func=run.q)
     dblk = run.cfg.block_of(d)[0]
